@@ -313,7 +313,7 @@ def r5_digest_covers_all_data(ctx, rule='C04.R5'):
             f'{ci.name}.digest: the hash function is fed `{src((partial or hashing)[0], 50)}` - pieces of `{dp}` instead of `{dp}` itself: bytes outside the pieces (e.g. a tail shorter than one block) are not covered by '
             'the digest, and damage to them passes verification',
         )
-    ctx.floor(rule, 'hash adapters with a digest method', n, 3)
+    ctx.floor(rule, 'hash adapters with a digest method', n, 1)
 
 
 def r6_failures_reach_the_exit_status(ctx, rule='C04.R3'):
